@@ -422,6 +422,10 @@ def one_dump(ctx, scene, x, root_bean, own_ignore, call_ignore, position, desc):
             ctx.violate(key, case, detail)
 
 
+class _SkipProxyRoutes(Exception):
+    pass
+
+
 def other_routes(ctx, scene, x, ref, case):
     """
     The same value serialised through the library's other users of the same Config: the message construction API and
@@ -448,6 +452,23 @@ def other_routes(ctx, scene, x, ref, case):
             got[form] = reply.get("result") if reply.get("error") is None else {"<error>": reply["error"]}
         got["copy-of-config"] = json.loads(json.dumps(__import__("jsonrpclib.jsonclass").jsonclass.dump(
             x, config=scene.cfg.copy())))
+        # a proxy configured with this Config, and a batch built from that proxy (not when a handler is registered
+        # for tuple/list: it would be applied to the argument list the call machinery itself builds)
+        if tuple in scene.handled or list in scene.handled:
+            raise _SkipProxyRoutes()
+        import jsonrpclib
+        from vf.peers import CannedTransport
+        tr = CannedTransport('{"jsonrpc": "2.0", "id": 1, "result": null}')
+        proxy = jsonrpclib.ServerProxy("http://canned/", transport=tr, config=scene.cfg)
+        proxy.m(x)
+        got["proxy-call"] = json.loads(tr.requests[-1][2])["params"][0]
+        tr.reply_text = '[{"jsonrpc": "2.0", "id": 1, "result": null}]'
+        mc = jsonrpclib.MultiCall(proxy)
+        mc.m(x)
+        mc()
+        got["multicall-of-that-proxy"] = json.loads(tr.requests[-1][2])[0]["params"][0]
+    except _SkipProxyRoutes:
+        ctx.count("routes:proxy-routes-skipped-container-handler")
     except Exception as ex:
         ctx.violate("route-raised-%s" % type(ex).__name__, case, {"raised": ex, "routes_done": sorted(got)})
         return
